@@ -508,7 +508,10 @@ def proposal_case(ctx, case, rng, tmp):
     np.random.seed(rng.getrandbits(32))
     try:
         try:
-            prop = FlowProposal(model, output=tmp, poolsize=10, plot=False, reparameterisations=case["reparameterisations"],
+            reps = case["reparameterisations"]
+            if isinstance(reps, dict):
+                reps = {k: (H.decode_kwargs(v) if isinstance(v, dict) else v) for k, v in reps.items()}
+            prop = FlowProposal(model, output=tmp, poolsize=10, plot=False, reparameterisations=reps,
                                 reverse_reparameterisations=case.get("reverse", False), **case.get("proposal_kwargs", {}))
             prop.set_rescaling()
             prop.verify_rescaling()
@@ -582,6 +585,12 @@ def proposal_cases(ctx, rng):
                                                       "prior": "uniform"},
                                                 "y": {"reparameterisation": "default", "prior": "uniform"}, "z": "default"},
                            points=pts(names, bounds), test=test, reverse=rng.random() < 0.5)
+    # a decreasing pre-rescaling makes the reported factor negative (log_j = NaN): must be refused at initialisation
+    names = ["x", "y"]
+    bounds = {"x": [0.0, 1.0], "y": [0.0, 1.0]}
+    yield dict(layer="proposal", kind="decreasing-pre-rescaling:reject", names=names, bounds=bounds,
+               reparameterisations={"x": {"reparameterisation": "default", "pre_rescaling": ["affine", -1.0, 0.0]}},
+               points=[[0.25, 0.5], [0.75, 0.5]], test=None, expect="reject")
     # angle configurations: bijective ones must be accepted, non-invertible ones must be refused at initialisation
     for name, b, expect in (("periodic", [0.0, 2.0], "accept"), ("periodic", [-1.0, 1.0], "accept"), ("periodic", [1.0, 3.0], "reject"),
                             ("angle-pi", [1.0, 3.0], "reject"), ("angle", [1.0, 3.0], "accept"), ("angle-2pi", [0.0, 6.0], "accept"),
